@@ -312,6 +312,12 @@ func vfcMonitor(scn *vfcScn, res *vfcResult) []vfcViol {
 			keysOf[cm.ID] = cm.Keys
 		}
 	}
+	idBatch, idRoute := map[int]int{}, map[int]int{}
+	for _, at := range res.Attempts {
+		for i, id := range at.IDs {
+			idBatch[id], idRoute[id] = at.Batch, at.Routes[i]
+		}
+	}
 	last := map[[2]int]int{} // (seg,key) -> last executed id
 	has := map[[2]int]bool{}
 	execIn := map[[2]int]int{} // (seg,id) -> count
@@ -332,7 +338,19 @@ func vfcMonitor(scn *vfcScn, res *vfcResult) []vfcViol {
 					}
 					out = append(out, vfcViol{w, fmt.Sprintf("cmd %d (key %s) executed twice within one run", e.ID, scn.Keys[ki])})
 				} else if e.ID < last[sk] {
-					out = append(out, vfcViol{"per-key-inversion", fmt.Sprintf("key %s: cmd %d took effect after cmd %d", scn.Keys[ki], e.ID, last[sk])})
+					// classify by cause: the two commands were routed to different node
+					// queues while both unfinished (D21 same batch, D22 batch in flight)
+					w := "per-key-inversion"
+					lo, hi := e.ID, last[sk]
+					if idRoute[lo] != idRoute[hi] {
+						if idBatch[lo] == idBatch[hi] {
+							w = "batch-route-split"
+						} else if scn.Mode == "pipe" || scn.Mode == "txnpipe" {
+							w = "pipelined-redirect-reorder"
+						}
+					}
+					out = append(out, vfcViol{w, fmt.Sprintf("key %s: cmd %d (batch %d, routed to node %d) took effect after cmd %d (batch %d, routed to node %d)",
+						scn.Keys[ki], lo, idBatch[lo], idRoute[lo], hi, idBatch[hi], idRoute[hi])})
 				}
 			}
 			if !has[sk] || e.ID > last[sk] {
@@ -377,10 +395,15 @@ func vfcLines(tag string, scn *vfcScn, res *vfcResult) (string, []string) {
 	for i, o := range res.Owner0 {
 		own[i] = fmt.Sprint(o)
 	}
-	fmt.Fprintf(&sb, "c19 %s %d %s %s", tag, scn.N, vfutil.HexList(hexKeys), strings.Join(own, ","))
+	fmt.Fprintf(&sb, "c19 %s %s %d %s %s", tag, scn.Mode, scn.N, vfutil.HexList(hexKeys), strings.Join(own, ","))
 	for _, e := range res.Trace {
 		sb.WriteByte(' ')
 		sb.WriteString(e)
+	}
+	if id, split := vfcRouteSplit(scn, res); split {
+		// the client routed a command differently from a not-yet-finished command
+		// of the same slot: outside the (repaired) model; order is then a race
+		return sb.String(), []string{fmt.Sprintf("%s reject route-split %d", tag, id)}
 	}
 	lines := []string{tag + " accept"}
 	for n, l := range res.NodeLog {
@@ -404,6 +427,69 @@ func vfcLines(tag string, scn *vfcScn, res *vfcResult) (string, []string) {
 		lines = append(lines, fmt.Sprintf("%s k%d %s", tag, ki, s))
 	}
 	return sb.String(), lines
+}
+
+// vfcRouteSplit: is there a Put whose route differs from the route of a command
+// of the same slot that is not finished yet (executed or answered with an
+// error)? Computed from the trace alone (client puts + node answers).
+func vfcRouteSplit(scn *vfcScn, res *vfcResult) (int, bool) {
+	txn := scn.Mode == "txn" || scn.Mode == "txnpipe"
+	type ent struct{ slot, node int }
+	atoi := func(s string) int { n := 0; fmt.Sscan(s, &n); return n }
+	out := map[int]ent{}
+	if !txn {
+		for _, e := range res.Trace {
+			p := strings.Split(e, ":")
+			switch p[0] {
+			case "P":
+				id, slot, n := atoi(p[2]), vfcSlot(scn.Keys[atoi(p[3])]), atoi(p[4])
+				for _, o := range out {
+					if o.slot == slot && o.node != n {
+						return id, true
+					}
+				}
+				out[id] = ent{slot, n}
+			case "q":
+				if o := p[4]; o == "x" || o == "e" {
+					delete(out, atoi(p[2]))
+				}
+			case "X":
+				out = map[int]ent{}
+			}
+		}
+		return 0, false
+	}
+	tidOf := map[int]int{}
+	var cur [][]string
+	for _, e := range res.Trace {
+		p := strings.Split(e, ":")
+		switch p[0] {
+		case "P":
+			cur = append(cur, p)
+		case "D":
+			if len(cur) == 0 {
+				continue
+			}
+			tid, slot, n := atoi(cur[0][2]), vfcSlot(scn.Keys[atoi(cur[0][3])]), atoi(cur[0][4])
+			cur = nil
+			for _, o := range out {
+				if o.slot == slot && o.node != n {
+					return tid, true
+				}
+			}
+			out[tid] = ent{slot, n}
+			tidOf[atoi(p[1])] = tid
+		case "t":
+			if o := p[4]; o == "x" || o == "e" {
+				delete(out, atoi(p[2]))
+			}
+		case "E":
+			if p[2] == "er" {
+				delete(out, tidOf[atoi(p[1])])
+			}
+		}
+	}
+	return 0, false
 }
 
 // ---------------------------------------------------------------- generator
@@ -564,7 +650,7 @@ func vfcOne(s *vfutil.Session, idx int, scn *vfcScn) {
 	res, err := vfcRun(scn)
 	if err != nil {
 		s.Count("run_error")
-		s.Op("c19 "+tag+" 0 . .", tag+" harness-error "+strings.ReplaceAll(err.Error(), " ", "_"))
+		s.Op("c19 "+tag+" sync 0 . .", tag+" harness-error "+strings.ReplaceAll(err.Error(), " ", "_"))
 		return
 	}
 	op, lines := vfcLines(tag, scn, res)
@@ -624,9 +710,13 @@ func vfcOne(s *vfutil.Session, idx int, scn *vfcScn) {
 		}
 		seen[v.what] = true
 		js, _ := json.Marshal(scn)
-		s.Violate(v.what, v.detail, map[string]interface{}{
+		rp := map[string]interface{}{
 			"scenario": string(js), "mode": scn.Mode, "window": scn.Window, "trace": strings.Join(res.Trace, " "),
-		})
+		}
+		if v.what == "pipelined-redirect-reorder" {
+			rp["cause"] = "slot-map-refresh-between-dispatch-and-receive"
+		}
+		s.Violate(v.what, v.detail, rp)
 	}
 }
 
@@ -662,7 +752,7 @@ func TestVerifC19(t *testing.T) {
 		idx++
 	}
 	r := vfutil.NewRand(vfutil.Seed())
-	n := vfutil.Scale(400, 6000)
+	n := vfutil.Scale(600, 12000)
 	for i := 0; i < n; i++ {
 		scn := vfcGen(r.Fork(), fmt.Sprintf("g%d", i))
 		vfcOne(s, idx, scn)
